@@ -4,7 +4,9 @@ import json
 from prov.identifier import Identifier, QualifiedName, Namespace
 
 from ..world import World, run_model, run_model_batch, diff_outputs
-from ..gen import Gen, PREFIXES, URIS, LOCALS
+from ..gen import Gen, PREFIXES, LOCALS, HASHLESS_BUILTINS
+from ..gen import URIS as _URIS
+URIS = _URIS + HASHLESS_BUILTINS
 from ..runner import Failure
 from .. import proto
 
@@ -86,9 +88,17 @@ def gen_history(g, w, n_ops, probes=True):
         if k < 0.28:
             p = r.choice(PREFIXES)
             u = r.choice(URIS)
+            regs = list(obj.get_registered_namespaces())
+            taken = {x.prefix for x in regs} | {"prov", "xsd", "xsi"}       # the scope's own table: registrations + the three built-ins
+            known_uris = {x.uri for x in regs} | {"http://www.w3.org/ns/prov#", "http://www.w3.org/2001/XMLSchema#",
+                                                  "http://www.w3.org/2001/XMLSchema-instance"}
             n = w.add_ns(c, p, u)
             if n.prefix != p:
                 flags.add("clash-or-rename")
+                if p not in taken and u not in known_uris:
+                    # (b) read from the caller's side: a fresh prefix is the answer to a clash, and there was none
+                    failures.append({"step": i, "scope": c, "kind": "b", "print": p, "uri": u, "got": "%s (prefix %s)" % (n.uri, n.prefix),
+                                     "name": [p, u, ""], "op_index": len(w.ops) - 1})
         elif k < 0.36:
             u = r.choice(DEFAULTS)
             cur = effective_default(c)
